@@ -131,9 +131,8 @@ def usedNamespaces (tns : Ns) (fields : List Field) : List Ns :=
       | some ns => if acc.any (fun u => u.abbreviation == ns.abbreviation) then acc else acc ++ [ns]
       | none => acc) [tns]
 
-/-- `write_complex_type`, up to and including the head of the `check_restrictions` impl -/
-def complexPrefix (p : CProps) : Chunks :=
-  let rustName := xmlNameToRustName p.xmlName
+/-- `write_complex_type`: doc comment, derive line, struct-level yaserde attribute, `pub struct X {` -/
+def complexHead (p : CProps) : Chunks :=
   writeCommentLines p.comment
   ++ [deriveLine]
   ++ (match p.tns with
@@ -143,10 +142,11 @@ def complexPrefix (p : CProps) : Chunks :=
         ["#[yaserde(prefix = " ++ rustDebugStr tns.abbreviation ++ ", namespaces = {" ++ nss ++ "}, rename = "
           ++ rustDebugStr p.xmlName ++ ")]\n"]
       | none => [])
-  ++ ["pub struct " ++ rustName ++ " {\n"]
-  ++ p.fields.flatMap writeField
-  ++ ["}\n"]
-  ++ writeCheckHeader rustName none
+  ++ ["pub struct " ++ xmlNameToRustName p.xmlName ++ " {\n"]
+
+/-- `write_complex_type`, up to and including the head of the `check_restrictions` impl -/
+def complexPrefix (p : CProps) : Chunks :=
+  complexHead p ++ p.fields.flatMap writeField ++ (["}\n"] ++ writeCheckHeader (xmlNameToRustName p.xmlName) none)
 
 /-- the delegation of the check to every member, in order -/
 def complexChecks (p : CProps) : Chunks :=
@@ -250,8 +250,8 @@ def writeSoapAction (operationName : String) (op : BindOp) (action : String) : C
 def writeBinding (b : Binding) : Except Err Chunks := do
   let mut out : Chunks := []
   for (opName, op) in b.ops do
-    out := out ++ ["\n/* " ++ replaceAll opName "*/" "* /" ++ " */\n\n"]
-    let pascal := toPascalCase opName
+    out := out ++ ["\n/* " ++ replaceAll (replaceAll opName "*/" "* /") "/*" "/ *" ++ " */\n\n"]
+    let pascal := xmlNameToRustName opName
     out := out ++ (← writeSoapOperation (pascal ++ "InputEnvelope") op.input b.tns)
     if let some o := op.output then
       out := out ++ (← writeSoapOperation (pascal ++ "OutputEnvelope") o b.tns)
@@ -262,7 +262,7 @@ def writeBinding (b : Binding) : Except Err Chunks := do
 /-- service.rs `write_async_soap_call` -/
 def writeAsyncSoapCall (opName : String) (op : BindOp) : Chunks :=
   let fnName := asFieldName opName
-  let pascal := toPascalCase opName
+  let pascal := xmlNameToRustName opName
   let req := pascal ++ "InputEnvelope"
   [ (match op.output with
      | some _ => "pub async fn " ++ fnName ++ "(&self, req: " ++ req ++ ") -> error::SoapResult<" ++ pascal ++ "OutputEnvelope> {\n"
